@@ -22,3 +22,11 @@ CLAIMED["C10"] = (
     "messages with exact timestamps/types/echoes; TLC's interleavings forced on real threads through cfg-guarded sync points; cache expiry "
     "with real sleeps). Random presentation histories recorded from a real listener are validated by TLC.",
     TB + "; reference codec (harness/src/refcodec.rs, refvmess.rs) builds the messages", "5.10")
+CLAIMED["C04"] = (
+    "model_checking", "TLA+ adapter+decoder guard-structure model (TLC over every segmentation of scaled layouts), segmentation replay through the real FramedRead/WebSocketFramed, trace validation with real field lengths",
+    "TLC checks the StreamCodec design (FramedRead / WebSocketFramed contracts around the group-guard structure of every decoder) for "
+    "every segmentation of 13 scaled layouts x 2 adapters (NoStall, NeverAhead, NoErrorOnValid, NoPanic, Complete) and that each named "
+    "defect class violates them; simulated segmentations are mapped onto real streams of every protocol/cipher (real and reference "
+    "producers) and delivered through the real adapters; hundreds of systematic/random runs are recorded and validated by TLC against "
+    "the same design instantiated with each run's real field lengths, every invariant in every state.",
+    TB + "; field boundaries from the reference opener", "5.4")
